@@ -160,6 +160,9 @@ func genFrame(r *hx.Rand, max, param int) codec.Frame {
 	}
 	fr := make(codec.Frame, len(sizes))
 	for i, n := range sizes {
+		if n > 64*avail { // keep the packet count per AU moderate; the cap boundary is met with larger limits
+			n = 64*avail - r.Intn(3)
+		}
 		fr[i] = notADTS(r.Bytes(n))
 	}
 	return fr
